@@ -9,6 +9,7 @@ import (
 	"0chain.net/chaincore/block"
 	cstate "0chain.net/chaincore/chain/state"
 	"0chain.net/chaincore/node"
+	"0chain.net/chaincore/threshold/bls"
 	"0chain.net/chaincore/transaction"
 	"0chain.net/core/common"
 	"github.com/0chain/common/core/logging"
@@ -618,9 +619,17 @@ func (msc *MinerSmartContract) contributeMpk(t *transaction.Transaction,
 			"decoding request: %v", err)
 	}
 
+	// the contribution is stored under the sender, whatever the payload says
+	mpk.ID = t.ClientID
+
 	if len(mpk.Mpk) != dmn.T {
 		return "", common.NewErrorf("contribute_mpk_failed",
 			"mpk sent (size: %v) is not correct size: %v", len(mpk.Mpk), dmn.T)
+	}
+
+	if _, err := bls.ConvertStringToMpk(mpk.Mpk); err != nil {
+		return "", common.NewErrorf("contribute_mpk_failed",
+			"mpk sent is not a list of public keys: %v", err)
 	}
 
 	mpks, err := getMinersMPKs(balances)
@@ -691,11 +700,18 @@ func (msc *MinerSmartContract) shareSignsOrShares(t *transaction.Transaction,
 			"getting miners DKG list %v", err)
 	}
 
+	if _, ok = dmn.SimpleNodes[t.ClientID]; !ok {
+		return "", common.NewError("share_signs_or_shares",
+			"miner not part of dkg set")
+	}
+
 	var sos = block.NewShareOrSigns()
 	if err = sos.Decode(inputData); err != nil {
 		return "", common.NewErrorf("share_signs_or_shares",
 			"decoding input %v", err)
 	}
+	// the shares are those of the sender, whatever the payload says
+	sos.ID = t.ClientID
 
 	if len(sos.ShareOrSigns) < dmn.K-1 {
 		return "", common.NewErrorf("share_signs_or_shares",
@@ -710,6 +726,10 @@ func (msc *MinerSmartContract) shareSignsOrShares(t *transaction.Transaction,
 	mpks, err = getMinersMPKs(balances)
 	if err != nil {
 		return "", common.NewError("share_signs_or_shares_failed", err.Error())
+	}
+	if _, ok = mpks.Mpks[t.ClientID]; !ok {
+		return "", common.NewError("share_signs_or_shares",
+			"miner has not contributed an mpk")
 	}
 
 	var publicKeys = make(map[string]string)
